@@ -55,11 +55,10 @@ func init() {
 			}
 			pad("s,f600,s", 602, 2)
 			if c.Tier == "thorough" {
-				for _, n := range []int{127, 255, 256, 257, 511, 512, 513, 1023, 1024, 1025, 4097, 10000} {
+				for _, n := range []int{127, 255, 256, 257, 511, 512, 513, 1023, 1024, 1025} {
 					pad(fmt.Sprintf("s,f%d,s", n), n+2, 2)
 				}
 				pad("f300,s,f300,s", 602, 2)
-				pad("f40,s,f260,s,f260,s", 563, 3)
 			}
 			// monotonicity
 			add("x86_64", 1, 1, 1, 0)
@@ -71,7 +70,7 @@ func init() {
 			return jobs, nil
 		},
 		NeedCovers: []string{"cover.returned", "cover.scan_failed", "cover.find_called", "cover.reported", "cover.monotone"},
-		Bounds:     map[string]interface{}{"lines": "L <= 2 (quick) / 3 (thorough) symbolic lines, every prefix of them delivered; contents unbounded strings over printable ASCII + space + tab", "long_listings": "2 symbolic lines with 600 concrete filler instructions between them (quick); 127..10000 fillers at 12 sizes around powers of two, fillers before the first symbolic line, and 3 symbolic lines with 260 fillers between them (thorough)", "monotonicity": "1 line + 1 appended (quick); also 2+1 and 1+2 (thorough)", "parsers": "x86_64 (L lines) and i386 (L-1 lines)"},
+		Bounds:     map[string]interface{}{"lines": "L <= 2 (quick) / 3 (thorough) symbolic lines, every prefix of them delivered; contents unbounded strings over printable ASCII + space + tab", "long_listings": "2 symbolic lines with 600 concrete filler instructions between them (quick); 127..1025 fillers at 10 sizes around powers of two and fillers before the first symbolic line (thorough)", "monotonicity": "1 line + 1 appended (quick); also 2+1 and 1+2 (thorough)", "parsers": "x86_64 (L lines) and i386 (L-1 lines)"},
 		Outside:    []string{"the leftmost-first semantics of the two regular expressions and number parsing inside findSyscallNum (summarised: arbitrary number or error)", "non-ASCII characters and white space other than space and tab", "listings longer than the bound (the loop body is the same for every line; no induction is claimed)", "the ARM parser (none exists)", "decided by z3 5.1.0 alone: cvc5 1.0.3 can hang on these queries and z3 4.8.12 times out, so there is no cross-check for string obligations"},
 		Assumptions: []string{"os.Open succeeds; bufio.Scanner is a model that delivers the first k lines and then stops, with Err() nil, an arbitrary error, or bufio.ErrTooLong (Scanner.Buffer moves the limit, it cannot remove it)", "strings.Fields: the number of fields (0, 1, 2, >= 3) is decided by membership; the fields themselves are opaque strings nobody inspects", "a function starts at a line with prefix TEXT (objdump format)", "findSyscallNum returns the same answer for the same line position in both runs of the monotonicity obligation"},
 		Trusted:    []string{"regular-language encoding of HasPrefix / Contains / slice bounds / field counts (gosym/lines.go) and its normalisation (sym/regex.go)", "model scanner and findSyscallNum summary (harness, ~80 lines)", "gosym engine; models replayed natively against disasm.go with its selectors rewritten to the stubs", "z3 5.1.0 string solver"},
